@@ -249,7 +249,7 @@ func (s *SelectStatement) ToStreamConfig() (*types.Config, string, error) {
 	// HAVING 可引用未选出的聚合（标准 SQL）。把 HAVING 文本里的聚合调用
 	// 映射到已选 alias，或注册为隐藏聚合 __having_N__ 让 aggregator 补算；aggs/fields 原地扩充。
 	selectAlias := buildSelectAliasMap(s.Fields)
-	havingRewritten := extractHavingAggregates(s.Having, aggs, fields, expressions, selectAlias)
+	havingRewritten := extractHavingAggregates(s.Having, aggs, fields, expressions, selectAlias, &postAggExpressions)
 
 	// 执行路径模式：MATCH_RECOGNIZE→CEP；窗口/聚合→Window；否则 Direct。
 	// 拦截 MATCH_RECOGNIZE 与 GROUP/聚合、JOIN 的组合（后续阶段支持）。
@@ -620,7 +620,11 @@ func joinCallNamesToParens(s string) string {
 // The argument of a hidden aggregate may be an expression (sum(v*2), avg(v + w)):
 // it is recorded in expressions, as the SELECT list does, so that the aggregate is
 // computed over the expression evaluated per row and not over its first column.
-func extractHavingAggregates(having string, aggs map[string]aggregator.AggregateType, fieldMap map[string]string, expressions map[string]types.FieldExpression, selectAlias map[string]string) string {
+//
+// A hidden aggregate configured by extra arguments (percentile(v, 0.5)) is
+// registered like the same call in the SELECT list, the post-aggregation
+// expression that carries its arguments being appended to postAgg.
+func extractHavingAggregates(having string, aggs map[string]aggregator.AggregateType, fieldMap map[string]string, expressions map[string]types.FieldExpression, selectAlias map[string]string, postAgg *[]types.PostAggregationExpression) string {
 	if strings.TrimSpace(having) == "" {
 		return having
 	}
@@ -669,6 +673,11 @@ func extractHavingAggregates(having string, aggs map[string]aggregator.Aggregate
 		name, expression, allFields := extractAggFieldWithExpression(call, names[i])
 		hidden := fmt.Sprintf("__having_%d__", seq)
 		seq++
+		repl[i] = hidden
+		if postAgg != nil && isMultiParamAggregate(call, expression) {
+			*postAgg = append(*postAgg, addMultiParamAggregate(call, hidden, name, aggs, fieldMap))
+			continue
+		}
 		aggs[hidden] = aggType
 		if name != "" {
 			fieldMap[hidden] = name
@@ -684,7 +693,6 @@ func extractHavingAggregates(having string, aggs map[string]aggregator.Aggregate
 				Fields:     allFields,
 			}
 		}
-		repl[i] = hidden
 	}
 	out := having
 	for i := len(spans) - 1; i >= 0; i-- {
@@ -1624,49 +1632,10 @@ func buildSelectFieldsWithExpressions(fields []Field) (
 			return nil, nil, nil, nil, parseErr
 		}
 		if t != "" {
-			// Check if this is a multi-parameter function that needs special handling
-			isMultiParamFunction := false
-			if expression != "" && strings.Contains(expression, ",") {
-				// Check if the function needs multi-parameter handling
-				funcName := extractFunctionName(f.Expression)
-				if fn, exists := functions.Get(funcName); exists {
-					minArgs := fn.GetMinArgs()
-					maxArgs := fn.GetMaxArgs()
-					// Function needs multi-parameter handling if it has multiple parameters
-					isMultiParamFunction = minArgs > 1 || (maxArgs > minArgs && minArgs >= 1)
-					// Functions configured by extra arguments, e.g. deduplicate(col, true)
-					if _, ok := fn.(functions.ParameterizedFunction); ok {
-						isMultiParamFunction = true
-					}
-				}
-			}
-
 			// For multi-parameter functions, treat as post-aggregation expression
-			if isMultiParamFunction {
-				// Parse as single aggregation function with parameters
-				aggFields := []types.AggregationFieldInfo{{
-					FuncName:    extractFunctionName(f.Expression),
-					InputField:  n,
-					Placeholder: "__" + extractFunctionName(f.Expression) + "_" + alias + "__",
-					AggType:     aggregator.AggregateType(extractFunctionName(f.Expression)),
-					FullCall:    f.Expression,
-				}}
-
-				// Add the aggregation function
-				selectFields[aggFields[0].Placeholder] = aggFields[0].AggType
-				fieldMap[aggFields[0].Placeholder] = aggFields[0].InputField
-
-				// Add post-aggregation expression (which just returns the placeholder value)
-				postAggExpressions = append(postAggExpressions, types.PostAggregationExpression{
-					OutputField:        alias,
-					OriginalExpr:       f.Expression,
-					ExpressionTemplate: aggFields[0].Placeholder,
-					RequiredFields:     aggFields,
-				})
-
-				// Mark the main field as post-aggregation
-				selectFields[alias] = "post_aggregation"
-				fieldMap[alias] = alias
+			if isMultiParamAggregate(f.Expression, expression) {
+				postAggExpressions = append(postAggExpressions,
+					addMultiParamAggregate(f.Expression, alias, n, selectFields, fieldMap))
 				continue
 			}
 
@@ -1692,6 +1661,55 @@ func buildSelectFieldsWithExpressions(fields []Field) (
 		}
 	}
 	return selectFields, fieldMap, expressions, postAggExpressions, nil
+}
+
+// isMultiParamAggregate reports whether call, an aggregate call with the argument
+// text expression, is a multi-parameter function that needs special handling.
+func isMultiParamAggregate(call, expression string) bool {
+	if expression == "" || !strings.Contains(expression, ",") {
+		return false
+	}
+	fn, exists := functions.Get(extractFunctionName(call))
+	if !exists {
+		return false
+	}
+	// Functions configured by extra arguments, e.g. deduplicate(col, true)
+	if _, ok := fn.(functions.ParameterizedFunction); ok {
+		return true
+	}
+	// Function needs multi-parameter handling if it has multiple parameters
+	minArgs, maxArgs := fn.GetMinArgs(), fn.GetMaxArgs()
+	return minArgs > 1 || (maxArgs > minArgs && minArgs >= 1)
+}
+
+// addMultiParamAggregate registers the multi-parameter aggregate call
+// (percentile(v, 0.5)) whose result is named alias: the aggregate itself under a
+// placeholder, and alias as a post-aggregation expression that just returns the
+// placeholder value. The aggregator takes the parameters from FullCall.
+func addMultiParamAggregate(call, alias, inputField string, selectFields map[string]aggregator.AggregateType, fieldMap map[string]string) types.PostAggregationExpression {
+	// Parse as single aggregation function with parameters
+	aggFields := []types.AggregationFieldInfo{{
+		FuncName:    extractFunctionName(call),
+		InputField:  inputField,
+		Placeholder: "__" + extractFunctionName(call) + "_" + alias + "__",
+		AggType:     aggregator.AggregateType(extractFunctionName(call)),
+		FullCall:    call,
+	}}
+
+	// Add the aggregation function
+	selectFields[aggFields[0].Placeholder] = aggFields[0].AggType
+	fieldMap[aggFields[0].Placeholder] = aggFields[0].InputField
+
+	// Mark the main field as post-aggregation
+	selectFields[alias] = "post_aggregation"
+	fieldMap[alias] = alias
+
+	return types.PostAggregationExpression{
+		OutputField:        alias,
+		OriginalExpr:       call,
+		ExpressionTemplate: aggFields[0].Placeholder,
+		RequiredFields:     aggFields,
+	}
 }
 
 // isComplexAggregationExpression checks if an expression contains multiple aggregation functions or operators with aggregation functions
